@@ -54,7 +54,7 @@ theorem mem_without_mid {X Z : List HTree} {t k : HTree} (h : k ∈ X ++ Z) : k 
 
 theorem sublist_without_mid (X Z : List HTree) (t : HTree) :
     (handlesList (X ++ Z)).Sublist (handlesList (X ++ t :: Z)) := by
-  simp only [handlesList_append, handlesList_cons]
+  simp only [fs_handlesList_append, handlesList_cons]
   exact (List.Sublist.refl _).append (List.sublist_append_right _ _)
 
 /-- `add_consolidate` does nothing (the node is not text); indextree's checked insertion is the
@@ -70,7 +70,7 @@ theorem insertAfterTail_eval {g : Forest} {q : Nat} {vq : Value} {X : List HTree
   have hqt : q ∉ handles t := by
     intro hin
     apply hqL
-    rw [handlesList_append, handlesList_cons]
+    rw [fs_handlesList_append, handlesList_cons]
     exact List.mem_append_right _ (List.mem_append_left _ hin)
   obtain ⟨Pw, w, Qw, hsplit, hw⟩ := isTop_split href
   have hwXZ : w ∈ X ++ Z := by rw [hsplit]; simp
@@ -130,7 +130,7 @@ theorem insertAfter_eval {g : Forest} {q : Nat} {vq : Value} {X : List HTree} {t
   have hqt : q ∉ handles t := by
     intro hin
     apply hqL
-    rw [handlesList_append, handlesList_cons]
+    rw [fs_handlesList_append, handlesList_cons]
     exact List.mem_append_right _ (List.mem_append_left _ hin)
   obtain ⟨A', B', hAB⟩ := List.append_of_mem (mem_without_mid (t := t) hw)
   have sg' : SiteAt g q vq (A' ++ w :: B') := hAB ▸ sg
@@ -173,7 +173,7 @@ theorem insertAfter_eval {g : Forest} {q : Nat} {vq : Value} {X : List HTree} {t
     have sX : SiteAt (g.editAt (some q) (fun _ => X' ++ u.setValue (.text (x ++ y)) :: ([t] ++ Z'))) q vq
         ((X' ++ [u.setValue (.text (x ++ y))]) ++ t :: Z') := by
       have := sg.edit (fun _ => X' ++ u.setValue (.text (x ++ y)) :: ([t] ++ Z')) (by
-        simp only [handlesList_append, handlesList_cons, setValue_handles, handlesList_nil, List.append_nil,
+        simp only [fs_handlesList_append, handlesList_cons, setValue_handles, handlesList_nil, List.append_nil,
           List.append_assoc]
         refine (List.Sublist.refl _).append ((List.Sublist.refl _).append ((List.Sublist.refl _).append ?_))
         exact List.sublist_append_right _ _)
